@@ -19,6 +19,8 @@ import Proofs.Gen16v
     `CenterVertically`), equality with `Ui.viewOf`, i.e. with `Ui.frame`.
   * `view_is_centered`: a frame is `Ansi.centerVertically … height` followed by at most one
     `ReplaceLastLine`.
+  * `view_state_eq`: the same from the model's side — the translated `view` of the translated
+    state of a model state (`genState`) is `Ui.view`.
 
   A translated state is any value of `GenView.State`; what the model needs of it is read off by
   `curOf` / `pageView` (the feed's four fields are the model feed's four fields) and `modeNum`.
@@ -259,5 +261,116 @@ theorem modeNum_surjective (k : Int) (h0 : 0 ≤ k) (h5 : k ≤ 5) : ∃ m, k = 
   · exact ⟨.selection, rfl⟩
   · exact ⟨.opening, rfl⟩
   · exact ⟨.problem, rfl⟩
+
+/-! ### The model's states
+
+  The same equality read from the model's side: a state of `Model/Ui.lean` (`Ui.State`, items are
+  `Pub.Item`s), a renderer for its items, the two loading flags and a terminal size determine a
+  translated state (`genState`); the translated `view` of it is the model's `Ui.view`. -/
+
+variable {α : Type}
+
+/-- A model feed with each item replaced by what it renders to. -/
+def renderFeed (r : Render α) (f : Feed.F α) : Feed.F GenView.Tangible :=
+  ⟨fun i => (f.feed i).map fun x => ⟨r.preview x, r.string x⟩, f.upper, f.lower, f.index⟩
+
+theorem walkUp_render (r : Render α) (f : Feed.F α) (n : Nat) (x : Int) :
+    walkUp (renderFeed r f) n x = walkUp f n x := by
+  induction n generalizing x with
+  | zero => rfl
+  | succ n ih =>
+    simp only [walkUp]
+    rw [show Feed.contains (renderFeed r f) (x - 1) = Feed.contains f (x - 1) from rfl, ih]
+
+theorem walkDown_render (r : Render α) (f : Feed.F α) (n : Nat) (x : Int) :
+    walkDown (renderFeed r f) n x = walkDown f n x := by
+  induction n generalizing x with
+  | zero => rfl
+  | succ n ih =>
+    simp only [walkDown]
+    rw [show Feed.contains (renderFeed r f) (x + 1) = Feed.contains f (x + 1) from rfl, ih]
+
+theorem partsStep_render (r : Render α) (f : Feed.F α) (w : Int) (acc : Str × Str × Str) (i : Int) :
+    partsStep tangible (renderFeed r f) w acc i = partsStep r f w acc i := by
+  have hc : Feed.contains (renderFeed r f) i = Feed.contains f i := rfl
+  have hp : Feed.isParent (renderFeed r f) i = Feed.isParent f i := rfl
+  have hch : Feed.isChild (renderFeed r f) i = Feed.isChild f i := rfl
+  simp only [partsStep, hc, hp, hch, Feed.get]
+  rcases Bool.eq_false_or_eq_true (Feed.contains f i) with h | h
+  · simp only [h, Bool.not_true, Bool.false_eq_true, if_false]
+    have hfeed : (renderFeed r f).feed ((renderFeed r f).index + i)
+        = (f.feed (f.index + i)).map fun x => (⟨r.preview x, r.string x⟩ : GenView.Tangible) := rfl
+    rw [hfeed]
+    cases f.feed (f.index + i) <;> rfl
+  · simp only [h, Bool.not_false, if_true]
+
+theorem foldParts_render (r : Render α) (f : Feed.F α) (w : Int) (L : List Int) (acc : Str × Str × Str) :
+    foldParts tangible (renderFeed r f) w L acc = foldParts r f w L acc := by
+  induction L generalizing acc with
+  | nil => rfl
+  | cons i is ih =>
+    simp only [foldParts, partsStep_render]
+    cases partsStep r f w acc i with
+    | error e => rfl
+    | ok a => exact ih a
+
+theorem parts_render (c : Colors) (r : Render α) (f : Feed.F α) (up down : Bool) (ctx w : Int) :
+    parts c tangible ⟨renderFeed r f, up, down⟩ ctx w = parts c r ⟨f, up, down⟩ ctx w := by
+  simp only [parts, walkUp_render, walkDown_render, foldParts_render]
+  rfl
+
+/-- The translated page of a model page. -/
+def genPage (r : Render T) (up down : Bool) (p : Ui.Page) : GenView.Page :=
+  ⟨Gen18.toGenF (renderFeed r p.feed), up, down⟩
+
+/-- The translated state of a model state on a `width` × `height` terminal. -/
+def genState (r : Render T) (s : Ui.State) (up down : Bool) (width height : Int) : GenView.State :=
+  { h := ⟨s.hist.elements.map (genPage r up down), s.hist.index⟩, width := width, height := height,
+    mode := modeNum s.mode, buffer := s.buffer }
+
+theorem curOf_genState (r : Render T) (s : Ui.State) (up down : Bool) (width height : Int) :
+    curOf (genState r s up down width height) =
+      match History.current s.hist with
+      | .error e => .error e
+      | .ok page => .ok ⟨renderFeed r page.feed, up, down⟩ := by
+  simp only [curOf, genState, GenHistory.Current, Gen18.index_natCast, History.current, List.getElem?_map]
+  cases s.hist.elements[s.hist.index]? <;> rfl
+
+theorem viewParts_genState (c : Colors) (r : Render T) (s : Ui.State) (up down : Bool) (width height : Int) :
+    viewParts c tangible s.mode (curOf (genState r s up down width height)) s.context width =
+      viewParts c r s.mode
+        (match History.current s.hist with
+         | .error e => .error e
+         | .ok page => .ok ⟨page.feed, up, down⟩) s.context width := by
+  rw [curOf_genState]
+  unfold viewParts
+  cases History.current s.hist with
+  | error e => rfl
+  | ok page => simp only [parts_render]
+
+/-- **The translated `view` of a model state is the model's `Ui.view`** (`Ui.frame` applied to
+    `Ui.viewParts` and `Ui.footerOf`), for every state of the model, every renderer of its items,
+    both loading flags, every width and every terminal height below 2^62 — the parts shorter than a
+    Go string can be. -/
+theorem view_state_eq (c : Colors) (r : Render T) (s : Ui.State) (up down : Bool) (width height : Int)
+    (h0 : 0 ≤ height) (h62 : height < 2 ^ 62)
+    (hsz : ∀ t ce b, viewParts c r s.mode
+        (match History.current s.hist with
+         | .error e => .error e
+         | .ok page => .ok ⟨page.feed, up, down⟩) s.context width = .ok (t, ce, b) →
+      t.length < 2 ^ 62 ∧ ce.length < 2 ^ 62 ∧ b.length < 2 ^ 62) :
+    GenView.view c s.context (genState r s up down width height) = Ui.view c r s up down width height := by
+  have hv := viewParts_genState c r s up down width height
+  rw [view_eq c s.context (genState r s up down width height) s.mode rfl h0 h62
+    (by intro t ce b h; exact hsz t ce b (by rw [← hv]; exact h))]
+  unfold Ui.view viewOf
+  show (match viewParts c tangible s.mode (curOf (genState r s up down width height)) s.context width with
+    | .error e => (Except.error e : Except Panic Str)
+    | .ok (top, center, bottom) => frame c top center bottom (footerOf s) width (Go.toUint height)) = _
+  rw [hv]
+  generalize viewParts c r s.mode _ _ _ = vp
+  cases vp with
+  | error e => rfl
+  | ok v => obtain ⟨t, ce, b⟩ := v; rfl
 
 end Gen16v
